@@ -846,11 +846,24 @@ func (s *ShapeIndex) applyUpdatesInternal() {
 	// allEdges maps a Face to a collection of faceEdges.
 	allEdges := make([][]faceEdge, 6)
 
+	if !s.isFirstUpdate() && (s.pendingAdditionsPos < s.nextID || len(s.pendingRemovals) > 0) {
+		// Merging updates into an existing cell map (absorbing index cells,
+		// removing shapes) is not implemented, and attempting it re-enters
+		// maybeApplyUpdates while the mutex is held. Rebuild the index from
+		// the shapes currently held instead. (When nothing is pending, e.g.
+		// for a second goroutine that waited for the mutex, the cell map
+		// must not be touched: other goroutines may already be reading it.)
+		s.cellMap = make(map[CellID]*ShapeIndexCell)
+		s.cells = nil
+		s.pendingAdditionsPos = 0
+		s.pendingRemovals = s.pendingRemovals[:0]
+	}
+
 	for _, p := range s.pendingRemovals {
 		s.removeShapeInternal(p, allEdges, t)
 	}
 
-	for id := s.pendingAdditionsPos; id < int32(len(s.shapes)); id++ {
+	for id := s.pendingAdditionsPos; id < s.nextID; id++ {
 		s.addShapeInternal(id, allEdges, t)
 	}
 
@@ -860,7 +873,7 @@ func (s *ShapeIndex) applyUpdatesInternal() {
 	}
 
 	s.pendingRemovals = s.pendingRemovals[:0]
-	s.pendingAdditionsPos = int32(len(s.shapes))
+	s.pendingAdditionsPos = s.nextID
 	// It is the caller's responsibility to update the index status.
 }
 
